@@ -18,6 +18,12 @@ fn walk_mix<M: NodeMon>(ctx: &Ctx, rep: &mut Report, mon: &mut M, quick: u64, th
         let cfg = WalkCfg { max_plies: maxp, null_per_mille: null_pm, stop_on_divergence: true, follow_library: fl };
         let nodes = playout(&start, &cfg, rng, mon, rep);
         rep.add("ev_nodes", nodes as u64);
+        // directed recipes: additionally every move of the motif position (after the prelude) is made once,
+        // through a randomly chosen entry point, and its successor visited
+        if !is_miri && is_scenario(start.tag) {
+            let nodes = tree_opt(&start, 1, fl, rng, mon, rep);
+            rep.add("ev_scenario_fanout_nodes", nodes as u64);
+        }
     });
     // W6: complete move trees from corpus roots
     if !is_miri && tree_depth > 0 {
